@@ -256,6 +256,14 @@ pub fn path_families(tier: &str) -> Vec<Family> {
         v.push(fam(DS, 4, s, &ORD_ONE));
     }
     v.push(fam(DS, 3, "ksum", &ORD_ONE));
+    {
+        let mut f = fam(DS, 3, "wf32", &ORD_ONE);
+        if tier == "quick" {
+            f.max_edges = 4;
+        }
+        v.push(f);
+    }
+    v.push(fam(US, 3, "wf32", &ORD_ONE));
     if tier == "quick" {
         for n in 0..=3 {
             for k in kinds_all() {
@@ -314,10 +322,10 @@ pub fn run(tier: &str, rec: &Recorder) -> RunOutput {
     let deadline = start + Duration::from_secs_f64(wall_cap_s(tier));
     let stats = E2Stats::new();
     let seed = std::env::var("VERIF_SEED").ok().and_then(|s| s.parse().ok()).unwrap_or(0);
-    for f in path_families(tier) {
-        let modes = modes_for(&f);
-        for_each_graph(&f, seed, deadline, &stats, |b, c| check_graph(b, rec, c, &modes, true));
-    }
+    for_each_family(&path_families(tier), |f| {
+        let modes = modes_for(f);
+        for_each_graph(f, seed, deadline, &stats, |b, c| check_graph(b, rec, c, &modes, true));
+    });
     {
         // size-gated (parallel) code path on graphs above the 20-node threshold, polynomial oracles
         let mut c = Counters::default();
